@@ -122,7 +122,7 @@ class _BoolNF(ast.NodeTransformer):
 
 # ------------------------------------------------------------------------------------------------ N5-N7
 import os as _os
-_OPT = set(_os.environ.get("SA_NORMAL", "N5,N6,N7,N8").split(","))
+_OPT = set(_os.environ.get("SA_NORMAL", "N5,N6,N7,N8,N9").split(","))
 
 
 def _ends_in_jump(stmts):
@@ -207,9 +207,88 @@ class _ShapeNF(ast.NodeTransformer):
                 last.body = list(last.body) + [ast.copy_location(ast.Return(value=None), last)]
         return self.generic_visit(node)
 
+    def _unroll(self, s):
+        """N9  loop over a literal table:  for a, b in ((A1, B1), (A2, B2)): BODY   ->   BODY[a:=A1, b:=B1] ; BODY[a:=A2, b:=B2]
+        when every element is a tuple of plain names / attribute chains / constants of the target's arity (or the target is a
+        single name), the body neither assigns the targets nor breaks/continues out of this loop, and there is no else clause.
+        Exact up to *when* the attribute chains are read (once per element at table construction vs at each use); restricted to
+        chains that the body does not store to."""
+        if not isinstance(s, ast.For) or s.orelse or not isinstance(s.iter, (ast.Tuple, ast.List)) or not (1 <= len(s.iter.elts) <= 12):
+            return None
+        tg = s.target
+        names = [tg.id] if isinstance(tg, ast.Name) else \
+            [e.id for e in tg.elts] if isinstance(tg, ast.Tuple) and all(isinstance(e, ast.Name) for e in tg.elts) else None
+        if not names:
+            return None
+
+        def simple(e):
+            while isinstance(e, ast.Attribute):
+                e = e.value
+            return isinstance(e, (ast.Name, ast.Constant))
+        rows = []
+        for el in s.iter.elts:
+            if isinstance(tg, ast.Name):
+                if not simple(el):
+                    return None
+                rows.append([el])
+            else:
+                if not isinstance(el, (ast.Tuple, ast.List)) or len(el.elts) != len(names) or not all(simple(x) for x in el.elts):
+                    return None
+                rows.append(list(el.elts))
+        stored = set()
+        for b in s.body:
+            for x in ast.walk(b):
+                if isinstance(x, ast.Name) and isinstance(x.ctx, (ast.Store, ast.Del)) and x.id in names:
+                    return None
+                if isinstance(x, (ast.FunctionDef, ast.Lambda, ast.ClassDef)):
+                    return None
+                if isinstance(x, ast.Attribute) and isinstance(x.ctx, (ast.Store, ast.Del)):
+                    stored.add(ast.unparse(x))
+        # break / continue that belong to this loop (not to a loop nested in the body)
+
+        def jumps(stmts):
+            for st in stmts:
+                if isinstance(st, (ast.Break, ast.Continue)):
+                    return True
+                if isinstance(st, (ast.For, ast.While)):
+                    if jumps(st.orelse):
+                        return True
+                    continue
+                for fld in ("body", "orelse", "finalbody"):
+                    if isinstance(getattr(st, fld, None), list) and jumps(getattr(st, fld)):
+                        return True
+                if isinstance(st, ast.Try) and any(jumps(h.body) for h in st.handlers):
+                    return True
+            return False
+        if jumps(s.body):
+            return None
+        if any(ast.unparse(x) in stored for row in rows for x in row if isinstance(x, ast.Attribute)):
+            return None
+        from .inline import clone
+
+        class Sub(ast.NodeTransformer):
+            def __init__(self, m):
+                self.m = m
+
+            def visit_Name(self, n):
+                if isinstance(n.ctx, ast.Load) and n.id in self.m:
+                    return ast.copy_location(clone(self.m[n.id]), n)
+                return n
+        out = []
+        for row in rows:
+            m = dict(zip(names, row))
+            for b in s.body:
+                out.append(ast.fix_missing_locations(Sub(m).visit(clone(b))))
+        return out
+
     def _block(self, stmts, chain=False):
         out = []
         for s in stmts:
+            if "N9" in _OPT:
+                u = self._unroll(s)
+                if u is not None and not self._used_after(stmts, s):
+                    out.extend(self._block(u, chain))
+                    continue
             if "N8" in _OPT:
                 q = self._quantifier(s)
                 if q is not None:
@@ -222,6 +301,17 @@ class _ShapeNF(ast.NodeTransformer):
                     continue
             out.append(s)
         return out
+
+    def _used_after(self, stmts, loop):
+        """are the loop's target names read in the statements that follow it in this block? (their last values would be needed)"""
+        tg = loop.target
+        names = {tg.id} if isinstance(tg, ast.Name) else {e.id for e in tg.elts if isinstance(e, ast.Name)}
+        i = stmts.index(loop)
+        for st in stmts[i + 1:]:
+            for x in ast.walk(st):
+                if isinstance(x, ast.Name) and x.id in names and isinstance(x.ctx, ast.Load):
+                    return True
+        return False
 
     def _if(self, n, chain=False):
         if "N7" in _OPT:
